@@ -85,6 +85,8 @@ fn truncate_case(n: usize, x: Fe, tier: Tier) -> GCase {
     c.extra = Some(Arc::new(move |_k, v| vec![("low'".into(), low_a), ("high'".into(), high_a), ("+r-ish".into(), v + pow2(n.min(254)))]));
     c.bound2 = false;
     c.confirm = tier == Tier::Thorough || n % 8 == 0 || n >= 253;
+    // wire-level deviations: small widths for every value, wide ones for one value
+    c.rewire = n <= 2 || ((n == 254 || (tier == Tier::Thorough && n % 32 == 0)) && x == fe(5));
     c
 }
 
@@ -111,6 +113,7 @@ fn decomposition_case(n: usize, x: Fe) -> GCase {
         devs
     }));
     c.confirm = true;
+    c.rewire = n <= 3 || ((n >= 255 || n == 9) && x == fe(5));
     c
 }
 
